@@ -107,7 +107,8 @@ pub fn pool(rng: &mut Rng, extra: usize) -> Vec<SqlValue> {
     }
     p.push(Boolean(true));
     p.push(Boolean(false));
-    for (y, m, d) in [(1, 1, 1), (1999, 12, 31), (2000, 1, 1), (2000, 2, 29), (9999, 12, 31), (-1, 1, 1)] {
+    // (the parser validates only month and day: years far outside four digits are representable)
+    for (y, m, d) in [(1, 1, 1), (1999, 12, 31), (2000, 1, 1), (2000, 2, 29), (9999, 12, 31), (-1, 1, 1), (2024, 1, 1), (4194304, 1, 1), (8390632, 1, 1), (8388608, 1, 1), (-4194304, 6, 15), (2147483647, 12, 31), (-2147483648, 1, 1), (65536, 1, 1)] {
         if let Ok(dt) = Date::new(y, m, d) {
             p.push(SqlValue::Date(dt));
             for (hh, mm, ss, ns) in [(0, 0, 0, 0), (23, 59, 59, 999_999_999), (12, 0, 0, 1)] {
